@@ -465,7 +465,23 @@ func checkC10Sink(p *Prog, r *Report, ru *Rule, known map[*ssa.Function]printfIn
 		}
 	})
 	if !found {
-		ru.Unproven("handleOutput:format", ho.Pos(), "no printf-style call with constant \"%%s\" found in handleOutput")
+		/* Or the line is written without any formatter at all (each load
+		of CLine.Line was judged above: used as data only). */
+		loads := 0
+		for _, f := range withAnons(ho) {
+			eachInstr(f, func(i ssa.Instruction) {
+				if v, ok := i.(ssa.Value); ok {
+					if fv, _ := loadedField(v); nil != fv && fv == line {
+						loads++
+					}
+				}
+			})
+		}
+		if loads > 0 {
+			ru.OK("handleOutput:format", ho.Pos(), "lines are written as data, without a formatter (%d loads of CLine.Line, none used as a format)", loads)
+		} else {
+			ru.Unproven("handleOutput:format", ho.Pos(), "no printf-style call with constant \"%%s\" found in handleOutput")
+		}
 	}
 }
 
